@@ -1118,6 +1118,15 @@ func TestGen(t *testing.T) {
 					if f.OddImp != 0 {
 						lbl = append(lbl, fmt.Sprintf("import:name-differs-from-path-%d", f.OddImp))
 					}
+					if f.Layout&1 != 0 {
+						lbl = append(lbl, "layout:crlf")
+					}
+					if f.Layout&2 != 0 {
+						lbl = append(lbl, "layout:no-final-newline")
+					}
+					if f.Layout&4 != 0 {
+						lbl = append(lbl, "layout:go-generate-and-doc-before-package")
+					}
 					ll := binLogLine{H: specHash(s) + gc.mode, NT: genNonTrivial(prop, gc, s, f), N: 1, Labels: lbl, Other: others}
 					others = nil
 					if ll.NT && samples < 2 {
